@@ -144,7 +144,8 @@ def _case(draw, tier):
     else:
         fault["frac"] = draw(st.integers(0, 1000))  # position in [1..M] as a fraction
     return {"desc": desc, "backend": b, "hashing": draw(st.booleans()), "fault": fault,
-            "second_round": draw(st.booleans()), "earlier_purged": draw(st.sampled_from([False, False, True]))}
+            "second_round": draw(st.booleans()), "earlier_purged": draw(st.sampled_from([False, False, True])),
+            "start_some": draw(st.booleans())}
 
 
 def strategy(tier):
@@ -179,6 +180,8 @@ def enumerate_cases(tier):
                    "second_round": True, "earlier_purged": True}
             yield {"desc": FIXED, "backend": b, "hashing": False, "fault": {"type": "kill_between", "k": k},
                    "second_round": True, "earlier_purged": True}
+            yield {"desc": FIXED, "backend": b, "hashing": False, "fault": {"type": "cmdfail", "k": k + 1, "kind": "exit1"},
+                   "second_round": False, "start_some": True}
 
 
 def run_case(case):
@@ -198,7 +201,7 @@ def run_case(case):
             # an earlier, clean invocation: part of the workflow is already in flight
             r0, new0 = S.run(sorted(names)[:1])
             if r0.code != 0:
-                raise hist.HarnessError("setup run failed: " + r0.brief())
+                raise hist.SubjectFailure("setup run failed: " + r0.brief())
             labels.add("earlier-invocation")
             if case.get("earlier_purged"):
                 # those jobs ran to completion long ago; the scheduler no longer knows them
@@ -297,6 +300,11 @@ def run_case(case):
                 if extra:
                     viols.append(Violation({"kind": "hash-recorded-without-acceptance", "fault": ftype},
                                            f"records for {extra}, accepted only {acc_names}"))
+        # meanwhile the scheduler may have started some of the accepted jobs
+        if case.get("start_some"):
+            for j in sim.startable()[: 1 + len(accepted) // 2]:
+                sim.start(j.id)
+                labels.add("accepted-job-running")
         # ---- follow-up invocations, fresh processes
         r1 = proj.gwf(["status"])
         if r1.code != 0 or r1.crashed:
